@@ -3,6 +3,7 @@ package bgp
 import (
 	"fmt"
 	"sort"
+	"strings"
 )
 
 // C18: UPDATE packing is lossless and within the size limit. What batches the update
@@ -77,6 +78,19 @@ func genC18(seed uint64) *Plan {
 			segs = append(segs, Segment{Type: 2, ASNs: all[:n]})
 			all = all[n:]
 		}
+		boundary := r.Chance(0.3)
+		if boundary {
+			// many one-ASN segments: the attribute block is larger than a size estimate that counts
+			// ASNs suggests; the prefix count is then put right at the edge of one full message
+			segs = nil
+			if srcAS != 65000 {
+				segs = append(segs, Segment{Type: 2, ASNs: []uint32{srcAS}})
+			}
+			for i := pick(r, []int{20, 40, 80}); i > 0; i-- {
+				segs = append(segs, Segment{Type: 2, ASNs: []uint32{uint32(1000 + i)}})
+			}
+			segs = append(segs, Segment{Type: 2, ASNs: []uint32{tag}})
+		}
 		a := &AttrSpec{ASPath: segs, NextHop: 0x0a000001}
 		if srcAS == 65000 {
 			a.LocalPref = u32p(100)
@@ -97,7 +111,26 @@ func genC18(seed uint64) *Plan {
 		} else {
 			plen = pick(r, []uint8{16, 24, 32})
 		}
+		if boundary {
+			// as many NLRI as fill one UPDATE together with these attributes, give or take a few
+			one := len(EncodeUpdate(UpdateSpec{Announce: []NLRI{{Prefix: manyPrefixes(v6, plen, 1, 0)[0]}}, Attrs: a.Attrs(v6), V6: v6, ASN4: true}))
+			two := len(EncodeUpdate(UpdateSpec{Announce: []NLRI{{Prefix: manyPrefixes(v6, plen, 2, 0)[0]}, {Prefix: manyPrefixes(v6, plen, 2, 0)[1]}}, Attrs: a.Attrs(v6), V6: v6, ASN4: true}))
+			if per := two - one; per > 0 {
+				count = (4096-one)/per + 1 + r.Intn(28) - 20
+				if count < 1 {
+					count = 1
+				}
+			}
+		}
 		pl.Steps = append(pl.Steps, Step{GapUS: int64(10_000 + r.Intn(200_000)), Kind: "announce_many", Peer: 0, V6: v6, N: count, Attr: a, Code: plen, Label: fmt.Sprintf("round%d", k)})
+		if r.Chance(0.35) {
+			// a second set of prefixes in the same aggregation window whose attributes differ from the
+			// first set's in one standard community only
+			b := *a
+			b.Communities = append(append([]uint32(nil), a.Communities...), 65000<<16|uint32(900+r.Intn(50)))
+			n2 := 1 + r.Intn(40)
+			pl.Steps = append(pl.Steps, Step{GapUS: 500, Kind: "announce_many", Peer: 0, V6: v6, N: n2, Attr: &b, Code: plen, Label: fmt.Sprintf("round%d-twin", k)})
+		}
 		pl.Steps = append(pl.Steps, Step{GapUS: 3*pl.Sim.AggrUS + 3_000_000, Kind: "checkpoint", Label: "packed"})
 	}
 	pl.TailUS = 500_000
@@ -142,10 +175,20 @@ func (o *c18Oracle) announceMany(w *World, i int, s *Step) {
 	if p == nil || p.conn == nil || !p.Established() {
 		return
 	}
-	for k := range w.Peers {
-		o.rxMark[k] = len(w.Peers[k].Rx)
+	if !strings.HasSuffix(s.Label, "-twin") {
+		for k := range w.Peers {
+			o.rxMark[k] = len(w.Peers[k].Rx)
+		}
 	}
-	pfxs := manyPrefixes(s.V6, s.Code, s.N, o.round)
+	base := o.round
+	if strings.HasSuffix(s.Label, "-twin") {
+		base += 100 // far away from the ranges the other rounds' prefixes spill into (IPv4: /8 blocks 111.., IPv6: bit 6 of the round nibble is dropped, so use another length-independent offset below)
+	}
+	pfxs := manyPrefixes(s.V6, s.Code, s.N, base)
+	if strings.HasSuffix(s.Label, "-twin") && s.V6 {
+		// IPv6 ranges are selected by 4 bits of the round: shift the twin's host part instead
+		pfxs = manyPrefixes(s.V6, s.Code, s.N+3000, o.round)[3000:]
+	}
 	o.round++
 	// unique prefixes only
 	seen := map[Prefix]bool{}
